@@ -15,6 +15,7 @@ import AcnProofs.Lemmas.FeasSums
 import AcnProofs.Lemmas.FeasAgree
 import AcnProofs.Lemmas.FeasComplex
 import AcnProofs.Lemmas.FeasCurrent
+import AcnProofs.Lemmas.FeasRestore
 import Mathlib.Tactic
 
 namespace Acn.C06
@@ -384,5 +385,40 @@ example : exNet.ifaceIsFeasible [("A", [1]), ("C", [2]), ("B", [1])] true none n
 theorem gen_tolerances :
     Acn.Gen.algAbsTol = Acn.Gen.netAbsTol ∧ Acn.Gen.algRelTol = Acn.Gen.netRelTol ∧
     0 < Acn.Gen.netAbsTol ∧ 0 ≤ Acn.Gen.netRelTol := by decide +kernel
+
+/-! ### 6. save / restore -/
+
+/-- a network whose arrays have the shape numpy gives them answers every feasibility query the
+    same after any number of `from_json(to_json())` round trips (of the network, or of the
+    simulator that owns it): the restored object IS the saved one — station order, phasors,
+    voltages, matrix (also one without rows), limits, names and tolerances — hence
+    `Interface.is_feasible` on every mapping, `ChargingNetwork.is_feasible` on every matrix and
+    the infrastructure view (on which the algorithm side decides) are unchanged, in both modes,
+    with default or explicit tolerances.  Any number of stations, constraints and periods. -/
+theorem restore_preserves_checks (net : Net K) (hrow : net.RowsWF) (n : Nat) :
+    net.restoreN n = net ∧
+    (∀ (sched : List (String × List K)) (linear : Bool) (vt? rt? : Option K),
+      (net.restoreN n).ifaceIsFeasible sched linear vt? rt? = net.ifaceIsFeasible sched linear vt? rt?) ∧
+    (∀ (S : List (List K)) (linear : Bool) (vt? rt? : Option K),
+      (net.restoreN n).isFeasible S linear vt? rt? = net.isFeasible S linear vt? rt?) ∧
+    (net.restoreN n).infraInfo = net.infraInfo := by
+  have h := Net.restoreN_eq net hrow n
+  refine ⟨h, ?_, ?_, ?_⟩ <;> simp [h]
+
+/-- the hypothesis is satisfiable, also by a network whose constraints have all been removed -/
+example : exNet.RowsWF := by
+  intro M h; cases h; exact ⟨rfl, by intro r hr; simp at hr; rcases hr with rfl | rfl <;> rfl⟩
+example : (({ exNet with matrix := some { cols := 3, rows := [] }, lims := [], cids := [] } : Net ℚ).restore.matrix.map
+    fun M => (M.cols, M.rows.length)) = some (3, 0) := by decide +kernel
+
+/-- the station ORDER travels only as the key order of the `_EVSEs` object: a document with the
+    same content whose keys come in another order (here: sorted) restores to a network that gives a
+    different verdict on the same `{station: rates}` mapping — which is why the check compares
+    restored objects per station id with the case, never with themselves. -/
+def exNetCAB : Net ℚ := { exNet with stations := ["C", "A", "B"] }
+example : exNetCAB.restore.ifaceIsFeasible [("C", [5])] false none none = .ok true ∧
+    ({ exNetCAB.toDoc with evses := ["A", "B", "C"] } : NetDoc ℚ).toNet.ifaceIsFeasible
+      [("C", [5])] false none none = .ok false := by
+  constructor <;> decide +kernel
 
 end Acn.C06
